@@ -33,11 +33,23 @@ class HarnessError(Exception):
     pass
 
 
+class HarnessAbort(BaseException):
+    pass
+
+
+def _try(thunk, alt):
+    try:
+        return thunk()
+    except Exception:
+        return alt()
+
+
 _KINDS = {
     "ZeroDivisionError": ZeroDivisionError,
     "KeyError": KeyError,
     "ValueError": ValueError,
     "HarnessError": HarnessError,
+    "HarnessAbort": HarnessAbort,
 }
 
 
@@ -159,6 +171,7 @@ class Real:
             self.m._t = _t          # names starting with '_' are hidden from listings
             self.m._fail = _fail
             self.m._failn = _failn
+            self.m._try = _try
 
     # -- object lookup ---------------------------------------------------------
     def space(self, path):
